@@ -45,6 +45,12 @@ PATCHES = {
          "\n//go:nosplit\n"
          "func verifNextN(n uint32) uint32 {\n"
          "\treturn uint32((uint64(uint32(verifNext()>>32)) * uint64(n)) >> 32)\n"
+         "}\n"
+         # identity of the running goroutine, for the loop-iteration counter of the instrumented copies
+         "\n//go:linkname verifGoid\n"
+         "//go:nosplit\n"
+         "func verifGoid() uint64 {\n"
+         "\treturn getg().goid\n"
          "}\n"),
     ],
     "runtime/select.go": [
